@@ -14,3 +14,31 @@ Example old_guards_refuted : map (strip_eol_gen 1 1) (split_lines (file_of ex_li
 Proof. vm_compute. discriminate. Qed.
 Example ex_wakati : wakati [[97]; [98; 99]] = [97; 32; 98; 99; 10] /\ wakati [] = [10].
 Proof. vm_compute. split; reflexivity. Qed.
+
+(* ---- column output ---- *)
+From Coq Require Import ZArith String.
+From SudachiVerif Require Import Model.CliColumns.
+Definition bs (s : string) : list N := bytes_of_string s.
+Definition ex_m1 : morph := {| m_surface := bs "ab"; m_pos := [bs "N"; bs "*"; bs "x"]; m_norm := bs "AB"; m_dict := bs "ab";
+                               m_reading := bs "ei"; m_dicid := 0%Z; m_syn := [1; 20]; m_oov := false |}.
+Definition ex_m2 : morph := {| m_surface := bs "?"; m_pos := [bs "S"]; m_norm := bs "?"; m_dict := bs "?";
+                               m_reading := []; m_dicid := (-1)%Z; m_syn := []; m_oov := true |}.
+Example ex_clean : forallb clean [ex_m1; ex_m2] = true.
+Proof. vm_compute. reflexivity. Qed.
+Example ex_simple_basic : simple false [ex_m1; ex_m2] = bs "ab" ++ [9] ++ bs "N,*,x" ++ [9] ++ bs "AB" ++ [10] ++
+                                                       bs "?" ++ [9] ++ bs "S" ++ [9] ++ bs "?" ++ [10] ++ bs "EOS" ++ [10].
+Proof. vm_compute. reflexivity. Qed.
+Example ex_simple_all : simple true [ex_m2] =
+  bs "?" ++ [9] ++ bs "S" ++ [9] ++ bs "?" ++ [9] ++ bs "?" ++ [9] ++ [9] ++ bs "-1" ++ [9] ++ bs "[]" ++ [9] ++ bs "(OOV)" ++ [10]
+  ++ bs "EOS" ++ [10].
+Proof. vm_compute. reflexivity. Qed.
+Example ex_debug_list : debug_list [1; 20; 300] = bs "[1, 20, 300]".
+Proof. vm_compute. reflexivity. Qed.
+Example ex_check_simple : check_simple true [ex_m1; ex_m2] (simple true [ex_m1; ex_m2]) = true.
+Proof. vm_compute. reflexivity. Qed.
+(* the hypothesis `clean` is needed: a surface containing a tab shifts the columns *)
+Example unclean_columns_shift :
+  let m := {| m_surface := [97; 9; 98]; m_pos := [bs "S"]; m_norm := [97]; m_dict := []; m_reading := []; m_dicid := 0%Z;
+              m_syn := []; m_oov := false |} in
+  split_on TAB (line false m) <> fields false m.
+Proof. vm_compute. discriminate. Qed.
